@@ -183,7 +183,7 @@ func runC20(c *kit.Ctx) {
 				return true
 			}
 			if r, ok := in.(*ssa.Return); ok {
-				return len(r.Results) != 1 || !kit.Same(r.Results[0], existing)
+				return len(r.Results) != 1 || !kit.Same(kit.Res(r, 0), existing)
 			}
 			return false
 		}})
@@ -220,7 +220,7 @@ func runC20(c *kit.Ctx) {
 			if !ok {
 				return
 			}
-			v := kit.Root(r.Results[0])
+			v := kit.Root(kit.Res(r, 0))
 			if kit.IsNilConst(v) {
 				return
 			}
@@ -253,7 +253,7 @@ func runC20(c *kit.Ctx) {
 		} else {
 			kit.Instrs(addrFn, func(in ssa.Instruction) {
 				if r, ok := in.(*ssa.Return); ok {
-					c.Check(isLoadOfField(r.Results[0], addrF), addrFn, "address-identity", r.Pos(), "Addr() returns the addr field", "Addr() no longer returns the stored address")
+					c.Check(isLoadOfField(kit.Res(r, 0), addrF), addrFn, "address-identity", r.Pos(), "Addr() returns the addr field", "Addr() no longer returns the stored address")
 				}
 			})
 			n := 0
